@@ -16,6 +16,9 @@ var _ = []interface{}{
 }
 
 func (m *MemInfo) Get() error {
+	if !vos.Simulated() {
+		return m.verifOrig_Get()
+	}
 	w := vos.Probe("meminfo")
 	m.Total = w.MemTotalBytes
 	m.Free = w.MemFreeBytes
@@ -26,27 +29,47 @@ func (m *MemInfo) Get() error {
 }
 
 func (la *LoadAverage) Get() error {
+	if !vos.Simulated() {
+		return la.verifOrig_Get()
+	}
 	w := vos.Probe("loadavg")
 	la.One, la.Five, la.Fifteen = w.LoadOne, w.LoadOne, w.LoadOne
 	return nil
 }
 
 func GetUserProcessCount() (int, error) {
+	if !vos.Simulated() {
+		return verifOrig_GetUserProcessCount()
+	}
 	return vos.Probe("userprocs").UserProcs, nil
 }
 
 func GetProcessTreeMemory(pid int, includeParent bool, io map[int]*IoAmount) (ObservedMemory, error) {
+	if !vos.Simulated() {
+		return verifOrig_GetProcessTreeMemory(pid, includeParent, io)
+	}
 	return ObservedMemory{}, nil
 }
 
 func GetMaxProcs() (*unix.Rlimit, error) {
+	if !vos.Simulated() {
+		return verifOrig_GetMaxProcs()
+	}
 	w := vos.Probe("rlimit")
 	return &unix.Rlimit{Cur: w.RlimNprocCur, Max: w.RlimNprocMax}, nil
 }
 
-func CheckMaxVmem(amount uint64) uint64 { return 0 }
+func CheckMaxVmem(amount uint64) uint64 {
+	if !vos.Simulated() {
+		return verifOrig_CheckMaxVmem(amount)
+	}
+	return 0
+}
 
 func CheckMinimalSpace(path string) error {
+	if !vos.Simulated() {
+		return verifOrig_CheckMinimalSpace(path)
+	}
 	w := vos.Probe("statfs")
 	if w.DiskFreeBytes < PIPESTANCE_MIN_DISK && w.DiskFreeBytes != 0 {
 		return &DiskSpaceError{Bytes: w.DiskFreeBytes, Inodes: w.DiskInodes, Message: "simulated: out of disk space"}
@@ -55,11 +78,17 @@ func CheckMinimalSpace(path string) error {
 }
 
 func GetAvailableSpace(path string) (bytes, inodes uint64, fstype string, err error) {
+	if !vos.Simulated() {
+		return verifOrig_GetAvailableSpace(path)
+	}
 	w := vos.Probe("statfs")
 	return w.DiskFreeBytes, w.DiskInodes, "simfs", nil
 }
 
 func GetMountOptions(path string) (fstype, opts string, err error) {
+	if !vos.Simulated() {
+		return verifOrig_GetMountOptions(path)
+	}
 	return "simfs", "rw", nil
 }
 
